@@ -229,6 +229,10 @@ func readerDocs(thorough bool) map[string][]byte {
 	d["zeros"] = []byte(`[0,-0,0.0,-0.0e1]`)
 	d["negzeros"] = []byte(`[-0,0]`)
 	d["ones"] = []byte(`[1,1.0,1e0,-1]`)
+	d["str-a"] = []byte(`["a"]`)
+	d["str-a-nul"] = []byte(`["a` + "\\" + `u0000"]`)
+	d["str-empty"] = []byte(`[""]`)
+	d["str-nul"] = []byte(`["` + "\\" + `u0000"]`)
 	d["strtrunc"] = []byte(`["abc`)
 	d["strfull"] = []byte(`["abcdef",1]`)
 	d["topstrtrunc"] = []byte(`"abc`)
